@@ -21,7 +21,8 @@ RULE = ('mode A: small concurrent programs (2-4 clients x 2-5 calls over 1-3 key
         'preemption inside an operation (mode A) plus free runs with overlapping operation pairs (mode B)')
 DISTINCT = ('schedules_with_preemption_in_op', 'free_runs_with_overlap')
 REQUIRED = ('histories_checked', 'schedules_shared_object', 'schedules_separate_objects', 'lock_waits_observed',
-            'file_backed_values', 'free_runs_threads', 'free_runs_processes', 'lru_stat_schedules', 'expired_present_keys')
+            'file_backed_values', 'free_runs_threads', 'free_runs_processes', 'lru_stat_schedules', 'expired_present_keys',
+            'handles_opened_during_schedules')
 ASSUMPTIONS = ('threads are interleaved at SQL-statement and value-file-operation granularity (where diskcache\'s '
                'critical sections begin and end); interleavings inside SQLite are reached only by free-running runs',
                'cross-process ordering uses CLOCK_MONOTONIC shared by processes of one machine')
@@ -231,7 +232,12 @@ def mode_a(dc, sc, res, rng, tier, label, variant):
         setup.set(k, v)
         if isinstance(v, str) and len(v) >= T:
             res.count('file_backed_values')
-    caches = [setup if shared else dc.Cache(d, timeout=0) for _ in range(nclients)]
+    # clients with their own handle open it (and sometimes re-open it) inside the scheduled run, while the others are
+    # in the middle of their operations: opening a handle is part of using the directory and must not disturb them
+    late = (not shared) and rng.random() < 0.6
+    caches = [setup if shared else None if late else dc.Cache(d, timeout=0) for _ in range(nclients)]
+    reopen_at = [rng.randrange(0, len(prog[ci]) + 1) if late and rng.random() < 0.5 else -1 for ci in range(nclients)]
+    opened = []
     strategy = rng.choice(['random', 'random', 'preempt', 'preempt', 'roundrobin'])
     pts = {rng.randrange(0, 120) for _ in range(rng.randrange(1, 4))}
     sch = Sched(rng, clock, strategy=strategy, preempt_points=pts)
@@ -240,7 +246,13 @@ def mode_a(dc, sc, res, rng, tier, label, variant):
     def client(ci):
         def run():
             cache = caches[ci]
-            for op, args, kw in prog[ci]:
+            if cache is None:
+                cache = dc.Cache(d, timeout=0)
+                opened.append(cache)
+            for j, (op, args, kw) in enumerate(prog[ci]):
+                if j == reopen_at[ci]:
+                    cache = dc.Cache(d, timeout=0)
+                    opened.append(cache)
                 rec.call(ci, op, args, lambda: do_op(cache, op, args, kw), kw)
         return run
 
@@ -256,6 +268,7 @@ def mode_a(dc, sc, res, rng, tier, label, variant):
             res.count('schedules_hit_step_cap')
             return
         res.count('schedules_shared_object' if shared else 'schedules_separate_objects')
+        res.count('handles_opened_during_schedules', len(opened))
         if variant == 'lru':
             res.count('lru_stat_schedules')
         res.count('lock_waits_observed', sch.lock_waits)
@@ -285,7 +298,7 @@ def mode_a(dc, sc, res, rng, tier, label, variant):
                         'trace_head': sch.trace[:40], 'preemptions_in_op': sch.preemptions_in_op})
     finally:
         probe.set_controller(None)
-        for c in set(caches) | {setup}:
+        for c in (set(caches) | {setup} | set(opened)) - {None}:
             try:
                 c.close()
             except Exception:     # noqa: BLE001
@@ -310,12 +323,12 @@ probe.set_controller(Delay())
 sys.path.insert(0, %(verif)r)
 from vf.checks import c05
 cache = dc.Cache(d, timeout=60)
-out = c05.free_client(cache, ci, rng, nops, T)
+out = c05.free_client(cache, ci, rng, nops, T, reopen=lambda: dc.Cache(d, timeout=60))
 print(json.dumps(out))
 '''
 
 
-def free_client(cache, ci, rng, nops, Tt):
+def free_client(cache, ci, rng, nops, Tt, reopen=None):
     keys = ['a', 'b', 'n', 'c'][:3]
     out = []
     for n in range(nops):
@@ -340,6 +353,8 @@ def free_client(cache, ci, rng, nops, Tt):
             op, args = 'delete', (k,)
         else:
             op, args = 'contains', (k,)
+        if reopen is not None and rng.random() < 0.04:
+            cache = reopen()
         t0 = time.monotonic_ns()
         try:
             kind, result = 'ok', do_op(cache, op, args, {})
@@ -393,9 +408,8 @@ def mode_b(dc, sc, res, rng, seed, topo, label, nclients, nops):
 
         def worker(ci):
             cache = shared or dc.Cache(d, timeout=60)
-            outs[ci] = free_client(cache, ci, _r.Random(seed * 1000 + ci), nops, T)
-            if shared is None:
-                cache.close()
+            outs[ci] = free_client(cache, ci, _r.Random(seed * 1000 + ci), nops, T,
+                                   reopen=None if shared else (lambda: dc.Cache(d, timeout=60)))
         ths = [threading.Thread(target=worker, args=(i,)) for i in range(nclients)]
         for th in ths:
             th.start()
@@ -420,8 +434,14 @@ def mode_b(dc, sc, res, rng, seed, topo, label, nclients, nops):
         ops.append({'client': 99, 'op': 'get', 'args': (k, 'MISS'), 'kw': {}, 'call': t, 'ret': t + 1, 'kind': 'ok',
                     'result': fresh.get(k, 'MISS')})
         t += 2
+    n_len, n_iter = len(fresh), len(list(fresh))
     fresh.close()
     sc.drop(d)
+    if n_len != n_iter:
+        # at quiescence the item count is the number of items: a difference is an update some completed call lost
+        res.violation('after a free-running %s run len() is %d but %d keys are present' % (topo, n_len, n_iter),
+                      {'label': label})
+        return
     # overlap statistics
     overl = 0
     srt = sorted(ops, key=lambda o: o['call'])
